@@ -155,6 +155,78 @@ func factsClient(p *pkg, o *out) {
 		sort.Strings(api)
 		o.strListDef("exportedReachingRaw", api, true)
 	}
+	// handler tables: event name => method
+	for _, tbl := range []string{"intHandlers", "stHandlers"} {
+		var ents []string
+		ok := false
+		if v := p.value(tbl); v != nil {
+			if cl, isCL := v.(*ast.CompositeLit); isCL {
+				ok = true
+				for _, e := range cl.Elts {
+					kv, isKV := e.(*ast.KeyValueExpr)
+					if !isKV {
+						ok = false
+						continue
+					}
+					key := ""
+					if s, sok := strLit(kv.Key); sok {
+						key = s
+					} else if id, isID := kv.Key.(*ast.Ident); isID {
+						if cv := p.value(id.Name); cv != nil {
+							key, _ = strLit(cv)
+						}
+					}
+					m := p.show(kv.Value)
+					ents = append(ents, key+"="+m)
+				}
+			}
+		}
+		sort.Strings(ents)
+		o.strListDef("table_"+tbl, ents, ok)
+	}
+	// who reads cfg.Pass
+	{
+		var readers []string
+		for _, fd := range p.allFuncs() {
+			if fd.Body == nil {
+				continue
+			}
+			found := false
+			ast.Inspect(fd.Body, func(n ast.Node) bool {
+				if se, ok := n.(*ast.SelectorExpr); ok && se.Sel.Name == "Pass" {
+					if inner, ok := se.X.(*ast.SelectorExpr); ok && inner.Sel.Name == "cfg" {
+						found = true
+					}
+				}
+				return true
+			})
+			if found {
+				readers = append(readers, fd.Name.Name)
+			}
+		}
+		sort.Strings(readers)
+		o.strListDef("cfgPassUsers", readers, true)
+	}
+	for _, m := range []string{"h_PING", "h_REGISTER", "getRequestCapabilities", "negotiateCapabilities", "handleCapAck", "handleCapNak",
+		"h_410", "h_CAP", "h_AUTHENTICATE", "h_903", "h_904", "h_908", "h_001", "h_433", "h_CTCP", "h_NICK",
+		"h_STNICK", "h_JOIN", "h_PART", "h_KICK", "h_QUIT", "h_MODE", "h_TOPIC", "h_311", "h_324", "h_332", "h_352", "h_353", "h_671",
+		"Me", "EnableStateTracking", "DisableStateTracking", "initialise", "addIntHandlers", "addSTHandlers", "delSTHandlers",
+		"ConnectContext", "internalConnect", "postConnect", "dialProxy", "send", "recv", "ping", "runLoop", "Close", "drainIn", "drainOut",
+		"dispatch", "Handle", "HandleBG", "HandleFunc", "handle", "LogPanic", "Connected"} {
+		o.shapeDef(p, "Conn", m)
+	}
+	for _, m := range []string{"Add", "Has", "Intersect", "Slice", "Size"} {
+		o.shapeDef(p, "capSet", m)
+	}
+	for _, m := range []string{"add", "remove", "getHandlers", "dispatch"} {
+		o.shapeDef(p, "hSet", m)
+	}
+	for _, m := range []string{"Handle", "Remove"} {
+		o.shapeDef(p, "hNode", m)
+	}
+	for _, f := range []string{"DefaultNewNick", "hasPort", "handlerSet", "capabilitySet", "Client", "NewConfig"} {
+		o.shapeDef(p, "", f)
+	}
 	o.shapeDef(p, "Conn", "rateLimit")
 	o.shapeDef(p, "Conn", "Raw")
 	o.shapeDef(p, "Conn", "write")
